@@ -635,11 +635,16 @@ func (w *Worker) makeSliceOf(et types.Type, ln, cp *Term) SliceV {
 	if u, ok := cp.ConstU(); ok {
 		n = int(u)
 	} else {
+		if eb, ok := under(et).(*types.Basic); ok && eb.Kind() == types.Uint8 && w.prog.symbolicMake {
+			buf := &SMTBuf{A: laOf(c.ConstArr(64, c.BVConst(0, 8))), N: cp}
+			o := w.newObj(buf, nil, "make-smt-sym")
+			return SliceV{Arr: PtrV{Obj: o}, Off: w.k64(0), Len: ln, Cap: cp}
+		}
 		n = int(w.concretizeAny(cp, w.prog.maxConcretize, "make([]T, n) capacity"))
 	}
 	if n > w.prog.maxAlloc {
 		if eb, ok := under(et).(*types.Basic); ok && eb.Kind() == types.Uint8 {
-			buf := &SMTBuf{A: c.ConstArr(64, c.BVConst(0, 8)), N: w.k64(n)}
+			buf := &SMTBuf{A: laOf(c.ConstArr(64, c.BVConst(0, 8))), N: w.k64(n)}
 			o := w.newObj(buf, types.NewArray(et, int64(n)), "make-smt")
 			return SliceV{Arr: PtrV{Obj: o}, Off: w.k64(0), Len: ln, Cap: w.k64(n)}
 		}
@@ -1082,6 +1087,10 @@ func (w *Worker) copyN(dst, src SliceV, n *Term) {
 		w.copyToSMT(dst, db, src, n)
 		return
 	}
+	if sb, ok := w.getPath(src.Arr.Obj.val, src.Arr.Path).(*SMTBuf); ok {
+		w.copyFromSMT(dst, src, sb, n)
+		return
+	}
 	if nc, ok := n.ConstU(); ok {
 		// read all first (memmove semantics)
 		vals := make([]Value, nc)
@@ -1241,44 +1250,3 @@ func (w *Worker) appendOp(s SliceV, more Value, st types.Type) Value {
 	return ns
 }
 
-func (w *Worker) copyToSMT(dst SliceV, db *SMTBuf, src SliceV, n *Term) {
-	c := w.ctx
-	sv := w.getPath(src.Arr.Obj.val, src.Arr.Path)
-	arr := db.A
-	switch s := sv.(type) {
-	case *SMTBuf:
-		// new array defined pointwise by a fresh array with axioms instantiated lazily
-		// is expensive; for constant n ≤ 64 unroll, otherwise use a copy node.
-		if nc, ok := n.ConstU(); ok && nc <= 128 {
-			vals := make([]*Term, nc)
-			for i := range vals {
-				vals[i] = c.Select(s.A, c.Add(src.Off, w.k64(i)))
-			}
-			for i := range vals {
-				arr = c.Store(arr, c.Add(dst.Off, w.k64(i)), vals[i])
-			}
-		} else {
-			arr = w.smtCopy(arr, dst.Off, s.A, src.Off, n)
-		}
-	case *ArrayV:
-		nc, ok := n.ConstU()
-		if !ok {
-			k := w.concretizeAny(n, w.prog.maxConcretize, "copy length into SMT buffer")
-			nc = k
-		}
-		for i := 0; i < int(nc); i++ {
-			arr = c.Store(arr, c.Add(dst.Off, w.k64(i)), w.sliceElem(src, w.k64(i)).(*Term))
-		}
-	}
-	w.store(dst.Arr, &SMTBuf{A: arr, N: db.N})
-}
-
-// smtCopy returns an array equal to dst except dst[dOff+i] = src[sOff+i] for
-// i < n. Implemented with a fresh array constant constrained lazily: reads
-// are resolved by Select simplification on the "copy" UF. To stay
-// quantifier-free we introduce a fresh array R and record the copy; reads of R
-// are expanded in selectArr.
-func (w *Worker) smtCopy(dst, dOff, src, sOff, n *Term) *Term {
-	w.unsupported("copy of symbolic/large length between SMT buffers (not implemented yet)")
-	return nil
-}
